@@ -203,7 +203,11 @@ func valOf(v ValPol) validation.Policy {
 	return [...]validation.Policy{validation.ExitEarly, validation.SkipInvalid}[v]
 }
 
-func propOf(p Prop) metav1.DeletionPropagation {
+func propOf(o Opts) metav1.DeletionPropagation {
+	if o.PropUnset && o.Prop == PropBackground {
+		return "" // the option is not set: setDefaults / setDestroyerDefaults must turn it into Background
+	}
+	p := o.Prop
 	return [...]metav1.DeletionPropagation{metav1.DeletePropagationBackground, metav1.DeletePropagationForeground, metav1.DeletePropagationOrphan}[p]
 }
 
@@ -292,7 +296,7 @@ func execRun(st *Store, sc Scenario, auto bool, sess *Session) (res RunResult) {
 			InventoryPolicy:         policyOf(sc.Opts.Policy),
 			DryRunStrategy:          dryOf(sc.Opts.Dry),
 			DeleteTimeout:           timeoutOf(sc.Opts.PruneTimeout),
-			DeletePropagationPolicy: propOf(sc.Opts.Prop),
+			DeletePropagationPolicy: propOf(sc.Opts),
 			EmitStatusEvents:        sc.Opts.StatusEvents,
 			ValidationPolicy:        valOf(sc.Opts.ValPol),
 		})
@@ -311,7 +315,7 @@ func execRun(st *Store, sc Scenario, auto bool, sess *Session) (res RunResult) {
 			EmitStatusEvents:       sc.Opts.StatusEvents,
 			NoPrune:                !sc.Opts.Prune,
 			DryRunStrategy:         dryOf(sc.Opts.Dry),
-			PrunePropagationPolicy: propOf(sc.Opts.Prop),
+			PrunePropagationPolicy: propOf(sc.Opts),
 			PruneTimeout:           timeoutOf(sc.Opts.PruneTimeout),
 			InventoryPolicy:        policyOf(sc.Opts.Policy),
 			ValidationPolicy:       valOf(sc.Opts.ValPol),
